@@ -62,7 +62,10 @@ EXTRA = ["INT=" + H("65535"), "INT=" + H("65536"), "INT=" + H("18446744073709551
          "INT=" + H("18446744073709551616"), "INT=" + H("-1"), "HEX=" + H("0xffffffffffffffff"),
          "HEX=" + H("0xfffffffffffffffff"), "HEX=" + H("0x00000000000000035"), "HEX=" + H("0x" + "0" * 30 + "ffffffffffffffff"),
          "HEX=" + H("0x" + "0" * 9 + "10000000000000000"), "IP4=" + H("01.2.3.4"), "IP4=" + H("255.255.255.255"),
-         "STR=" + H("|f|"), "STR=", "STR=" + H("a|0d 0a|é")]
+         "STR=" + H("|f|"), "STR=", "STR=" + H("a|0d 0a|é"),
+         # layout inside a hex section is any Unicode white space (and the separators - : . ,), not only ASCII blanks
+         "STR=" + H("|3c\u00a031\u3000 0d\u20030a\u00850b\x0b0c|"), "STR=" + H("x|\u00a0|y"), "STR=" + H("|4\u00a01|"),
+         "STR=" + H("|41\u00a0|é\u3000|42|")]
 
 
 def core_alphabet(i):
@@ -258,7 +261,8 @@ class Gen:
         r = self.rng
         k = r.randrange(5)
         if k == 0:
-            return ["STR=" + H(r.choice(["", "a", "hello world", "|00 ff|", "a|0d0a|b", "é€", "|f|", "|zz|"]))]
+            return ["STR=" + H(r.choice(["", "a", "hello world", "|00 ff|", "a|0d0a|b", "é€", "|f|", "|zz|", "|00\u00a0ff\u3000|",
+                                         "|0d\u20030a|\u00a0", "|a\x0bb|"]))]
         if k == 1:
             return ["BOOL=" + H(r.choice(["true", "false"]))]
         if k == 2:
